@@ -191,6 +191,14 @@ def explain (g : Graph) (km : KindMap) (q : Cy.Query) (ordered : Bool) (bagCols 
         | some ns => ns
         | none => []
 
+/-- a path with its node and relationship lists reversed; a list of nodes / of relationships (nodes(p), relationships(p)) reversed -/
+def revPathTop : RVal → RVal
+  | .path ns rs => .path ns.reverse rs.reverse
+  | .list xs =>
+    if !xs.isEmpty && (xs.all (fun x => match x with | .node .. => true | _ => false) || xs.all (fun x => match x with | .rel .. => true | _ => false))
+    then .list xs.reverse else .list xs
+  | v => v
+
 def compareOn (km : KindMap) (params : List (String × Val)) (q : Cy.Query) (s : Stmt) (ordered : Bool) (bagCols : List Nat) (g : Graph) : Outcome :=
   match Cy.evalKeyed Cy.Quirks.none g q with
   | .error w => .unmodelledCy w
@@ -212,6 +220,10 @@ def compareOn (km : KindMap) (params : List (String × Val)) (q : Cy.Query) (s :
         let srS := sr.map (canonBags bagCols)
         let ex := if ex.isEmpty && !crS.isEmpty && crS.all (fun r => srS.any (rowEq r)) && srS.all (fun r => crS.any (rowEq r))
           then ["multiplicity-only"] else ex
+        -- not a deviation switch of the reference semantics but a recognisable symptom: the SQL rows are the Cypher rows with every path
+        -- (and every nodes(p) / relationships(p) list) in REVERSE order — the path was materialised in the optimiser's drive direction
+        let crRev := cr.map (fun r => canonBags bagCols (r.map revPathTop))
+        let ex := if ex.isEmpty && !(bagEq crRev crS) && bagEq crRev srS then ["path-in-reverse-order"] else ex
         .differ ex s!"graph={renderGraph g} cy={(renderRows cr).replace " " "_"} sql={(renderRows sr).replace " " "_"}"
 
 def kindMapOf : Sexp → Option KindMap
